@@ -59,6 +59,10 @@ M = [
     ("c13-leq-as-lt", "C13", P + "models/numeric_symbolic_operations.py", '    return f"({inequality_operator} {pddl_left_side} {pddl_right_side})"', '    return f"({inequality_operator.replace(\'<=\', \'<\')} {pddl_left_side} {pddl_right_side})"'),
     ("c13-digits-ignored", "C13", P + "models/numeric_symbolic_operations.py", '            format(expression, f".{decimal_digits}f")\n            if not round(float(expression), decimal_digits).is_integer()', '            format(expression, f".0f")\n            if not round(float(expression), decimal_digits).is_integer()'),
     ("c13-substitution-sign", "C13", P + "models/numeric_symbolic_operations.py", "            left_expr = left_expr.subs(eliminated_variables[0], solutions[0])", "            left_expr = left_expr.subs(eliminated_variables[0], -solutions[0])"),
+    ("c13-lt-as-leq", "C13", P + "models/numeric_symbolic_operations.py", '    return f"({inequality_operator} {pddl_left_side} {pddl_right_side})"', '    return f"({inequality_operator if inequality_operator != \'<\' else \'<=\'} {pddl_left_side} {pddl_right_side})"'),
+    ("c13-high-digits-lose-one", "C13", P + "models/numeric_symbolic_operations.py", '            format(expression, f".{decimal_digits}f")\n            if not round(float(expression), decimal_digits).is_integer()', '            format(expression, f".{decimal_digits if decimal_digits < 5 else decimal_digits - 3}f")\n            if not round(float(expression), decimal_digits).is_integer()'),
+    ("c13-rational-sign-lost", "C13", P + "models/numeric_symbolic_operations.py", "        expression = Float(expression)\n", "        expression = Float(abs(expression))\n"),
+    ("c13-substitute-left-side-only", "C13", P + "models/numeric_symbolic_operations.py", "            right_expr = right_expr.subs(eliminated_variables[0], solutions[0])\n", "            pass\n"),
     ("c14-eq-ignores-fluents", "C14", P + "models/pddl_state.py", "        return my_numeric_expressions == other_numeric_expressions", "        return len(my_numeric_expressions) == len(other_numeric_expressions)"),
     ("c14-copy-shares-predicate-sets", "C14", P + "models/pddl_state.py", "            predicate_name: {predicate.copy() for predicate in predicates}", "            predicate_name: predicates"),
     ("c15-last-action-dropped", "C15", P + "multi_agent/single_agent_plan_converter.py", "            if len(plan_actions) == 0:\n                joint_actions.append(JointActionCall(joint_action))\n                break", "            if len(plan_actions) == 0:\n                break"),
